@@ -13,14 +13,14 @@ Ltac unfold_all :=
        assign_ctxt_some if_let_ctxt_else if_let_ctxt ParamsCtxt_mk ctxt_clear_cache node_defined unsupported
        expect_node expect_node_set_value expect_node_execute];
   change (tl_bit 1) with (Some true); change (tl_bit 0) with (Some false); change (5 =? 0) with false;
-  cbv [params_ctxt cam_open cam_load cam_start cam_stop cam_close
+  cbv [params_ctxt cam_open cam_load cam_start cam_stop cam_close tl_read_back
        bindM get need ret fail panic do_op emit ctxt_loaded orb].
 
 (* case analysis on exactly what the code branches on: the bits of the state, the plan at the operations
    reached, cap = 0 (crunch of P_C16.v) *)
 Ltac split_state s :=
   destruct s as [[oc os cx en tl aq lr tc bk tf] tr ops att fl];
-  try (destruct cx as [[nt ns np ny nz ct cs cp cy cb ht]|]).
+  try (destruct cx as [[nt ns np ny nz nm ct cs cp cy cb ht]|]).
 
 Ltac solve_eq := crunch; reflexivity.
 
@@ -107,16 +107,16 @@ Theorem start_of_source cap plc s c0 :
   r_atts r = EnableStreaming ::
              match h_tl c0 with
              | Some _ => []
-             | None => SetTLParamsLocked true :: (if n_copy c0 then [CopyTL true] else [])
+             | None => tl_read_effs c0 ++ SetTLParamsLocked true :: (if n_copy c0 then [CopyTL true] else [])
              end ++ [AcqStart; LoopStart] /\
   filter is_access (r_effs r) = r_atts r /\
   loop_running (r_cam r) = true.
 Proof.
   intros Hl Hc Ht Hs Hcap Hpl. cbv zeta. rewrite src_run_call_eq.
-  destruct s as [oc os cx en tl aq lr tc bk tf]. destruct c0 as [nt ns np ny nz ct cs cp cy cb ht].
-  cbn [loop_running ctxt n_tl n_start n_copy h_tl] in *. subst lr cx nt ns.
+  destruct s as [oc os cx en tl aq lr tc bk tf]. destruct c0 as [nt ns np ny nz nm ct cs cp cy cb ht].
+  unfold tl_read_effs. cbn [loop_running ctxt n_tl n_start n_copy h_tl n_mask c_tl] in *. subst lr cx nt ns.
   unfold run_call.
-  cbv [call_body cam_start params_ctxt bindM get need ret fail panic do_op emit ctxt_loaded].
+  cbv [call_body cam_start tl_read_back params_ctxt bindM get need ret fail panic do_op emit ctxt_loaded].
   crunch; try congruence; repeat split.
 Qed.
 
@@ -129,16 +129,16 @@ Theorem stop_of_source plc s c0 :
   r_atts r = [LoopStop; AcqStop] ++
              match h_tl c0 with
              | Some _ => []
-             | None => SetTLParamsLocked false :: (if n_copy c0 then [CopyTL false] else [])
+             | None => tl_read_effs c0 ++ SetTLParamsLocked false :: (if n_copy c0 then [CopyTL false] else [])
              end ++ [DisableStreaming] /\
   filter is_access (r_effs r) = r_atts r /\
   loop_running (r_cam r) = false.
 Proof.
   intros Hl Hc Ht Hs Hpl. cbv zeta. rewrite src_run_call_eq.
-  destruct s as [oc os cx en tl aq lr tc bk tf]. destruct c0 as [nt ns np ny nz ct cs cp cy cb ht].
-  cbn [loop_running ctxt n_tl n_stop n_copy h_tl] in *. subst lr cx nt np.
+  destruct s as [oc os cx en tl aq lr tc bk tf]. destruct c0 as [nt ns np ny nz nm ct cs cp cy cb ht].
+  unfold tl_read_effs. cbn [loop_running ctxt n_tl n_stop n_copy h_tl n_mask c_tl] in *. subst lr cx nt np.
   unfold run_call.
-  cbv [call_body cam_stop params_ctxt bindM get need ret fail panic do_op emit ctxt_loaded].
+  cbv [call_body cam_stop tl_read_back params_ctxt bindM get need ret fail panic do_op emit ctxt_loaded].
   crunch; try congruence; repeat split.
 Qed.
 
@@ -146,7 +146,7 @@ Qed.
 Example source_example :
   let rs := src_run no_failure [COpen; CLoad xml_good; CStart 3; CParams; CStop; CClose] in
   trace_of rs =
-    [CtrlOpen; StrmOpen; GenApiFetch; LoadCtxt true true true false false false;
+    [CtrlOpen; StrmOpen; GenApiFetch; LoadCtxt true true true false false false false;
      EnableStreaming; SetTLParamsLocked true; AcqStart; LoopStart;
      LoopStop; AcqStop; SetTLParamsLocked false; DisableStreaming;
      CtrlClose; StrmClose; ClearCache] /\
